@@ -27,6 +27,9 @@ func init() {
 			{ID: "C15.R8", Text: "a vBucket without a position is an error: openStream returns a non-nil error on every path on which the position lookup fails", Run: c15r8},
 			{ID: "C15.R9", Text: "an unreadable checkpoint is fatal, not 'no checkpoint': the file backend treats exactly os.ErrNotExist as absent and returns every other read or parse error; the Couchbase backend concludes absence only after the read and parse (same rule as C02.R7)", Run: c02r7},
 			{ID: "C15.R10", Text: "a transient end is always answered by the bounded reopen: reopen ⇔ ¬closeWithCancel ∧ err≠nil ∧ transient cause, under no further condition of the stream's state (same rule as C12.R1)", Run: c12r1},
+			{ID: "C15.R11", Text: "the session starts from what the guarded load returned: the position map is assigned only from Checkpoint.Load()#0 (or a fresh empty map) and mutated only by the position writer — nothing carried over from a previous session bypasses the checkpoint-ahead guard (same rule as C01.R1)", Run: c01r1},
+			{ID: "C15.R12", Text: "every end of a vBucket's stream reaches the end listener while the stream is open: End forwards ⇔ ¬endClosed and never writes the switch itself (same rule as C12.R4)", Run: c12r4},
+			{ID: "C15.R13", Text: "a stream that cannot be opened is reported to the fail-stop logic: openStream makes one request and returns its outcome — no loop, no sleep", Run: openOnce},
 			{ID: "C15.R6", Text: "bounded reopen then fail-stop (same rule as C12.R3)", Run: c12r3},
 		},
 	})
